@@ -232,6 +232,10 @@ func (f *File) ReadAt(b []byte, off int64) (n int, err error) {
 	atomic.StoreInt64(&f.at, off)
 	n, err = f.Read(b)
 	atomic.StoreInt64(&f.at, prev)
+	if err == nil && n < len(b) {
+		// io.ReaderAt: a short read must come with a non-nil error
+		err = io.EOF
+	}
 	return
 }
 
